@@ -29,6 +29,9 @@ def variants(case, tier, idx):
     if idx % 4 == 3:
         # the exactly solvable model written in another (complex) basis, with and without degeneracy reduction
         vs.append({"memory": "dkmax", "rot": "haar", "unique": bool(idx % 8 == 3)})
+    if case["alg"] == "col" and idx % 6 == 1:
+        # the process tensor is computed into a file-backed container and used from there
+        vs.append({"memory": "dkmax", "pt_container": "file", "unique": bool(idx % 12 == 1)})
     if tier == "thorough":
         vs.append({"memory": "dkmax", "start": 1.0, "dt": 0.5, "unique": True})
     return vs
@@ -80,6 +83,17 @@ def numeric_job(job):
                           for j in range(3)] for i in range(3)])
         worst = max(worst, float(np.max(np.abs(dyn.states[m] - want))))
     return [] if worst < 2e-6 else [{"what": "independent-boson", "err": worst}]
+
+
+def cutoff_sweep_job(job):
+    """The same script compares cutoff shapes: spectral densities that differ in ONE argument only (cutoff type, exponent,
+    temperature or coupling strength) are used one after the other in one process; each must give its own closed form."""
+    order, temp, zeta, method = job
+    out = []
+    for ct in order:
+        for x in numeric_job((ct, temp, zeta, method)):
+            out.append(dict(x, cutoff_type=ct, after=list(order[:list(order).index(ct)])))
+    return out
 
 
 def finite_mode_job(job):
@@ -178,6 +192,13 @@ def run(ctx):
              for z, meth in ((1.0, "tempo"), (3.0, "pt"))]
     # ... and with a bath object that was used before with rough tolerances (cutoff x time >> 1)
     njobs += [(ct, t, 1.0, meth, True) for ct in ("exponential", "gaussian") for t, meth in ((0.0, "tempo"), (0.6, "pt"))]
+    sweeps = [(order, t, 1.0, meth) for order in (("gaussian", "exponential", "hard"), ("hard", "gaussian", "exponential"),
+                                                   ("exponential", "hard", "gaussian"))
+              for t, meth in ((0.0, "tempo"), (0.6, "pt"))]
+    for j, mm in zip(sweeps, core.pmap(cutoff_sweep_job, sweeps)):
+        ctx.case({"numeric_sweep": {"cutoff_types_in_one_process": list(j[0]), "T": j[1], "method": j[3]}}, nontrivial=True)
+        for x in mm:
+            ctx.violation("C01:numeric-sweep:%s:%s" % (x["cutoff_type"], x["what"]), "%s: %s" % (j, x), {"sweep": [list(j[0])] + list(j[1:])})
     for j, mm in zip(njobs, core.pmap(numeric_job, njobs)):
         ctx.case({"numeric": {"cutoff_type": j[0], "T": j[1], "zeta": j[2], "method": j[3], "bath_used_before": len(j) > 4}},
                  nontrivial=True)
@@ -229,6 +250,13 @@ def replay(ctx, rep):
         ctx.case({"replay": True})
         for x in finite_mode_job(tuple(rep["case"]["finite"])):
             ctx.violation("C01:replay:" + x["what"], str(x), rep["case"])
+        return
+    if "sweep" in rep["case"]:
+        core._init_worker()
+        j = rep["case"]["sweep"]
+        ctx.case({"replay": True})
+        for x in cutoff_sweep_job((tuple(j[0]), j[1], j[2], j[3])):
+            ctx.violation("C01:replay:numeric-sweep:%s" % x["what"], str(x), rep["case"])
         return
     if "numeric" in rep["case"]:
         core._init_worker()
